@@ -581,19 +581,35 @@ def check(world, kind, edited, build=False):
             seen = "EXC:" + type(e).__name__
         found.append(((s.fullpath, mkind, name, sym, seen), tuple(tags), what, probe, expected))
 
+    CRASH = object()
+
+    def read(expr_text, s, name=None, mkind=None, definer=None):
+        """a read the property says succeeds: an exception raised by modelx is a finding, not a checker fault"""
+        try:
+            return live.ev(expr_text)
+        except Exception as e:
+            fail("read-crash", "%s raised %s: %s" % (expr_text, type(e).__name__, str(e)[:150]),
+                 "val(lambda: %s) != 'EXC'" % expr_text, True, s, name, mkind, definer,
+                 extra=("exc:" + type(e).__name__,))
+            return CRASH
+
     for i in sorted(rs):
         s, v = rs[i], var[i]
         nbefore = len(found)
         value_checks = []
         # -- the graph
         want = [b.name for b in s.bases]
-        got = live.ev("[b.name for b in %s._direct_bases]" % v)
+        got = read("[b.name for b in %s._direct_bases]" % v, s)
+        if got is CRASH:
+            continue
         if got != want:
             fail("direct-bases", "%s._direct_bases = %s, expected %s" % (v, got, want),
                  "[b.name for b in %s._direct_bases]" % v, want, s)
         mro = R.mro(s)
         want = [b.name for b in mro[1:]]
-        got = live.ev("[b.name for b in %s.bases]" % v)
+        got = read("[b.name for b in %s.bases]" % v, s)
+        if got is CRASH:
+            continue
         if got != want:
             fail("bases-not-c3", "%s.bases = %s, CPython C3 gives %s" % (v, got, want),
                  "[b.name for b in %s.bases]" % v, want, s, extra=("nbases:%d" % min(len(s.bases), 3),))
@@ -601,7 +617,9 @@ def check(world, kind, edited, build=False):
         for mkind in ("cells", "ref"):
             exp = R.exp_cells(s) if mkind == "cells" else R.exp_refs(s)
             cont = "cells" if mkind == "cells" else "_own_refs"
-            names = live.ev("list(%s.%s)" % (v, cont))
+            names = read("list(%s.%s)" % (v, cont), s, None, mkind)
+            if names is CRASH:
+                continue
             for n in exp:
                 definer, d = exp[n]
                 if n not in names:
@@ -611,8 +629,10 @@ def check(world, kind, edited, build=False):
                     continue
                 if mkind == "cells":
                     bad = False
-                    got = live.ev("(norm(%s.cells[%r].formula.source), %s.cells[%r]._is_derived(), "
-                                  "%s.cells[%r].is_cached)" % (v, n, v, n, v, n))
+                    got = read("(norm(%s.cells[%r].formula.source), %s.cells[%r]._is_derived(), "
+                               "%s.cells[%r].is_cached)" % (v, n, v, n, v, n), s, n, mkind, definer)
+                    if got is CRASH:
+                        continue
                     wsrc = norm(d.source(n))
                     if got[0] != wsrc:
                         bad = True
@@ -636,8 +656,10 @@ def check(world, kind, edited, build=False):
                     if not bad:
                         value_checks.append((s, v, n, definer))
                 else:
-                    got = live.ev("(%s._own_refs[%r], %s._get_object(%r, as_proxy=True).is_derived(), "
-                                  "%s._get_object(%r, as_proxy=True).refmode)" % (v, n, v, n, v, n))
+                    got = read("(%s._own_refs[%r], %s._get_object(%r, as_proxy=True).is_derived(), "
+                               "%s._get_object(%r, as_proxy=True).refmode)" % (v, n, v, n, v, n), s, n, mkind, definer)
+                    if got is CRASH:
+                        continue
                     if got[0] != d.value:
                         fail("wrong-definer",
                              "%s.%s = %r; first definer in C3 order is %s with %r"
